@@ -362,7 +362,7 @@ pub fn run(ctx: &RunCtx) -> i32 {
     let meta = CheckMeta {
         property: "C02",
         level: "exploration",
-        rule: "for every operation of the S3 trait: (systematic) one input per optional member with just that member present, (random) inputs with members absent / all present / random subsets; strings from the alphabet of the member's binding taken from the smithy model (header: visible ASCII with inner single/double spaces, quotes, commas; query / key: UTF-8 incl. + % & = ? # / space, non-ASCII; XML: Unicode incl. markup, edge whitespace, CR, ']]>'), lists 0..2, nested structures, metadata maps, bodies {0,1,17,4096,4097}; encoded by aws-sdk-s3 via s3s_aws::Proxy, compared member-wise with what the recording backend received, under path-style / virtual-hosted / auth on / two adapters in a row. Reject cases: every single-valued header / query / metadata member of a captured valid request duplicated, every number / boolean / timestamp member ill-typed, required XML payload emptied, declared Content-Length +-3 for a framed buffered body. A cell is (operation, member, binding, value class).".into(),
+        rule: "for every operation of the S3 trait: (systematic) one input per optional member with just that member present, (random) inputs with members absent / all present / random subsets; strings from the alphabet of the member's binding taken from the smithy model (header: visible ASCII with inner single/double spaces, quotes, commas; query / key: UTF-8 incl. + % & = ? # / space, non-ASCII; XML: Unicode incl. markup, edge whitespace, CR, ']]>'), lists 0..2, nested structures, metadata maps, bodies {0,1,17,4096,4097}; encoded by aws-sdk-s3 via s3s_aws::Proxy, compared member-wise with what the recording backend received, under path-style / virtual-hosted / auth on / two adapters in a row. Reject cases: every single-valued header / query / metadata member of a captured valid request duplicated, every number / boolean / timestamp member ill-typed, required XML payload emptied, declared Content-Length +-3 for a framed buffered body. Transport-fault leg: plain / digest-signed PutObject and five buffered XML operations with the body failing in transit instead of frame k (io::Error kinds, wrapped, custom): backend not invoked, or stream ended with an error after a prefix. A cell is (operation, member, binding, value class).".into(),
         assumptions: vec![
             "a member the generator left unset but the SDK put on the wire itself (content-type, checksums, content-length, ...) is excused only if the tapped request carries its header / query key".into(),
             "members the SDK computes or rewrites (content-length, content-md5, checksum members, SSE-C keys) are never generated".into(),
